@@ -62,6 +62,8 @@ fn main() {
                 max_cases: p(8),
                 checkpoint_every: p(9),
                 dir: std::path::PathBuf::from(args.get(10).cloned().unwrap_or_default()),
+                start: args.get(11).and_then(|s| s.parse::<u64>().ok()).unwrap_or(p(5)),
+                part: args.get(12).and_then(|s| s.parse::<u32>().ok()).unwrap_or(0),
             };
             run_worker(c, &a)
         },
